@@ -1,15 +1,15 @@
-SPECIFICATION MCFairSpec
+SPECIFICATION MCSpec
 CONSTANTS
-  NWriters = 3
-  Mode = "dist"
+  NWriters = 2
+  Mode = "local"
   FirstUse = FALSE
   Recheck = TRUE
-  TrackSched = FALSE
-  CellMap = "pair"
+  TrackSched = TRUE
+  CellMap = "separate"
 INVARIANT AtMostOneInitiate
 INVARIANT NoWriterFails
 INVARIANT PartsUnderTheOneId
 INVARIANT FinaliseUnderTheOneId
 INVARIANT CompleteAtEnd
 INVARIANT LockFreeAtEnd
-PROPERTY EventuallyDone
+INVARIANT OneLocalLock
